@@ -135,7 +135,7 @@ def all_cases(tier):
     """(label, maker) pairs; maker() returns a real schema or None."""
     cases = []
     for t in list(universe(tier)) + extra_terms(tier):
-        if not has_alias(t) and "'mult'" not in repr(t) and "'pmult'" not in repr(t):
+        if not has_alias(t) and "'mult'" not in repr(t) and "'nmult'" not in repr(t):
             # (the parametrised user type of the universe deliberately has no __represent__: what
             # the library prints for it is not meant to be evaluated)
             cases.append(("term", t))
